@@ -5,5 +5,5 @@ CONSTANTS
   Mode = "orbits"
   Fams = {"all", "live", "exact", "short", "self"}
   Muts = {"none", "dup", "unknown-voter", "wrongkey", "badsig", "claim-missing", "expel-unknown-target", "expel-unknown-signer", "expel-wrongkey-signer", "expired", "dup-expel"}
-INVARIANTS AcceptedImpliesWellFormed
+INVARIANTS AcceptedImpliesWellFormed HistoryIndependent AcceptedOnlyGenuine
 CHECK_DEADLOCK FALSE
